@@ -114,8 +114,9 @@ func newEnvParty(kt kmsapi.KeyType) *envParty {
 var envPool = map[string][]*envParty{}
 
 func envParties(ktName string, n int) []*envParty {
+	kt := envKeyTypes[strings.TrimSuffix(ktName, "-filler")]
 	for len(envPool[ktName]) < n {
-		envPool[ktName] = append(envPool[ktName], newEnvParty(envKeyTypes[ktName]))
+		envPool[ktName] = append(envPool[ktName], newEnvParty(kt))
 	}
 	return envPool[ktName][:n]
 }
